@@ -1,5 +1,5 @@
 """C04 -- ABT_mutex: mutual exclusion, recursion, no lost wakeup."""
-from vr import Obl
+from vr import Obl, deepen
 
 META = {
     "explanation": "E2 (preemption-point symbolic scheduling): the focus lock/unlock runs the real code; at every atomic builtin the solver may "
@@ -41,6 +41,7 @@ def obligations(tier):
                      real=["src/mutex.c"], defs=["INIT=%d" % init], unwind=3, cut_loops=SPIN, backend="cadical",
                      encodes=["ABT_mutex_lock", "ABT_mutex_trylock", "ABT_mutex_spinlock", "ABT_mutex_unlock", "ABTI_mutex_lock", "ABTI_mutex_unlock"],
                      bounds="one step; nesting depth any value in [0, INT_MAX)", symbolic="owner (none/caller/other), nesting depth, operation"))
+    o += deepen([x for x in o if x.hooks and '_lock_holder' in x.name], tier)
     return o
 
 MANIFEST_ENTRY = {
